@@ -109,8 +109,20 @@ ExcuseF3 == "F3" \in Excused /\ \E i \in 1..Len(Live(FieldsOf(TypeOf(ty)))) :
 \* F12: a body field of type Duration / RetryStrategy
 ExcuseF12 == "F12" \in Excused /\ \E i \in 1..Len(FieldsOf(TypeOf(ty))) :
                 LET f == FieldsOf(TypeOf(ty))[i] IN f.role = "body" /\ f.ty \in {Named("Duration"), Named("RetryStrategy")}
+\* the live fields of the struct / variant the instance belongs to
+InstFieldsOf == LET D == TypeOf(ty) IN
+                IF D.kind = "struct" THEN Live(D.fields) ELSE IF D.kind = "enum" THEN Live(D.variants[inst.var].fields) ELSE <<>>
+\* F14 / F15: an optional body field that is None / that holds an empty collection (read back as None)
+ExcuseF14 == "F14" \in Excused /\ \E i \in 1..Len(InstFieldsOf) :
+                InstFieldsOf[i].role = "body" /\ InstFieldsOf[i].ty.c = "opt" /\ inst.v[i] = NoneI
+ExcuseF15 == "F15" \in Excused /\ \E i \in 1..Len(InstFieldsOf) :
+                InstFieldsOf[i].role = "body" /\ InstFieldsOf[i].ty.c = "opt" /\ inst.v[i] = SomeI(VecI(<<>>))
+\* F16: a model value as header body next to header slots
+ExcuseF16 == "F16" \in Excused /\ \E i \in 1..Len(InstFieldsOf) :
+                InstFieldsOf[i].role = "hbody" /\ InstFieldsOf[i].ty = VAL /\ HasRole(InstFieldsOf, "header")
 ReadInvertsRender == (ty # "" /\ hist = <<>> /\ sess = <<>>) =>
-                        (ReadKey(ty, doc) = Ok(inst) \/ RenderClash \/ ExcuseF1 \/ ExcuseF3 \/ ExcuseF12)
+                        (ReadKey(ty, doc) = Ok(inst) \/ RenderClash \/ ExcuseF1 \/ ExcuseF3 \/ ExcuseF12
+                         \/ ExcuseF14 \/ ExcuseF15 \/ ExcuseF16)
 
 Tagged(k) == TypeOf(k).kind \in {"struct", "enum"}
 WrongTagRejected == (ty # "" /\ hist = <<>> /\ sess = <<>> /\ Tagged(ty)) => \A m \in Local("wrongTag", doc) : ~ReadKey(ty, m).ok
